@@ -590,7 +590,7 @@ fn stall_parts(rep: &mut Report, props: &[&str], checks: u32, windows: &[usize],
         }
     }
     let n = scns.len();
-    let cfg = ExploreCfg { k: Some(0), wall: Duration::from_secs(if thorough { 900 } else { 40 }), variants: crate::explore::CORE_MENU, variant_every: if thorough { 1 } else { 3 }, ..Default::default() };
+    let cfg = ExploreCfg { k: Some(0), wall: Duration::from_secs(if thorough { 2400 } else { 40 }), variants: crate::explore::CORE_MENU, variant_every: if thorough { 2 } else { 3 }, ..Default::default() };
     let out = explore(&scns, &cfg, judge);
     rep.absorb("S: one peer starved of remote input (Input-class outage b->a of every length, every start), windows incl. lockstep", out, props,
         json!({"k": 0, "windows": windows, "delays": [0,2,5], "outage_len_max": format!("3w+{max_extra}"), "scenarios": n}));
